@@ -177,6 +177,45 @@ def strip(r):
     return ('other', repr({k: r[k] for k in r if k in ('hang', 'crash', 'driver_error', 'ok')}))
 
 
+def decline_equivalence(ctx, drv, cfg):
+    """A match that the rule declines leaves the line as if that pattern were absent: a rule with the patterns [P1, P2] whose
+    behaviour declines every P1 match (the field it needs is only bound by P2) must behave exactly like the same rule registered
+    with [P2] alone - also on lines where both patterns occur, in either order."""
+    rng, res = ctx.rng, ctx.res
+    w = rng.choice([3, 7, 11])
+    spec = {'name': 'cond', 'kind': 'encode', 'weights': {'n': w}}
+    p1 = rng.choice(['zork {NUMBER:a} {NUMBER:b}', '{NUMBER:a} zork', 'zork {TEXT:t}'])
+    p2 = rng.choice(['blip {NUMBER:n}', '{NUMBER:n} blip'])
+    lang = rng.choice(['en', 'en', 'tr'])
+    ops = [{'op': 'new_calc', 'c': 5, 'seg': True}] + gh.config_ops(cfg, 5, seg=False) + [{'op': 'add_rule', 'c': 5, 'lang': lang, 'patterns': [p1, p2], 'spec': spec}]
+    ops += [{'op': 'new_calc', 'c': 6}] + gh.config_ops(cfg, 6, seg=False) + [{'op': 'add_rule', 'c': 6, 'lang': lang, 'patterns': [p2], 'spec': spec}]
+    m1 = {'zork {NUMBER:a} {NUMBER:b}': 'zork 3 4', '{NUMBER:a} zork': '6 zork', 'zork {TEXT:t}': 'zork abc'}[p1]
+    m2 = {'blip {NUMBER:n}': 'blip 8', '{NUMBER:n} blip': '8 blip'}[p2]
+    lines = [m2, m1, '%s + %s' % (m1, m2), '%s + %s' % (m2, m1), '%s * 2' % m2, '2 * (%s) + %s' % (m2, m1), '%s\n%s' % (m1, m2)]
+    n0 = len(ops)
+    for t in lines:
+        ops.append({'op': 'execute', 'c': 5, 'lang': lang, 'text': t})
+        ops.append({'op': 'execute', 'c': 6, 'lang': lang, 'text': t})
+    rs = drv.run(ops)
+    for k, t in enumerate(lines):
+        ra, rb = rs[n0 + 2 * k], rs[n0 + 2 * k + 1]
+        res.cases += 1
+        res.count('class:declined-pattern-equivalence')
+        res.distinct.add('decline', lang, p1, p2, t)
+        if k == 0:
+            slot = mon.slot0(ra)
+            if not (mon.kind(slot) == 'number' and mon.fval(slot) == 8.0 * w):
+                res.violation('rule:matching-line', 'a rule with the patterns %r (%s) should turn %r into %r, got %s' % ([p1, p2], lang, t, 8.0 * w, mon.describe(slot)),
+                              {'lang': lang, 'text': t, 'ops': ops[:n0 // 2 + 1] + [{'op': 'execute', 'c': 5, 'lang': lang, 'text': t}]})
+                continue
+        if strip(ra) == strip(rb):
+            res.count('ok')
+        else:
+            res.violation('rule:declined-pattern-not-as-absent', 'rule with patterns %r where every match of the first is declined: %r (%s) gives %s; the same rule registered with %r alone gives %s'
+                          % ([p1, p2], t, lang, str(strip(ra))[:200], [p2], str(strip(rb))[:200]),
+                          {'lang': lang, 'text': t, 'ops': [o for o in ops[:n0] if o.get('c') == 5] + [{'op': 'execute', 'c': 5, 'lang': lang, 'text': t}]})
+
+
 def run_shard(ctx):
     rng = ctx.rng
     res = ctx.res
@@ -184,7 +223,11 @@ def run_shard(ctx):
     cfg = mon.cfg_with()
     plist = probes()
     corpus = [t for t in gh.corpus() if len(t) < 60][:40]
+    n_hist = 0
     while not ctx.out_of_time():
+        n_hist += 1
+        if n_hist % 8 == 1:
+            decline_equivalence(ctx, drv, cfg)
         model = Model()
         ops = [{'op': 'new_calc', 'c': 0, 'seg': True}] + gh.config_ops(cfg, 0, seg=False)
         meta = {}
